@@ -255,6 +255,29 @@ theorem int_history_independent (I : Integ) (MC : MCInteg) (pre post : List Call
     runSeq I MC [c] = [runCall I MC c] := by
   simp [runSeq]
 
+/-! ## the explicit method parameter is honoured as given (no silent cap) -/
+
+/-- **gk_depth_honoured**: an explicit `method_parameter` `p ≠ 0` reaches the Gauss–Kronrod rule unchanged as its
+    `max_depth`, however large (in particular beyond 10), and `evaluation_points` of Gauss-Legendre_2 likewise; with
+    ordered limits the dispatch is literally the rule at that depth. -/
+theorem gk_depth_honoured (I : Integ) (p : Int) (hp : p ≠ 0) (f : Rat → Rat) (a b : Rat) (hab : a < b) :
+    effParam .gaussKronrod p = p ∧ effParam .gaussLegendre2 p = p ∧
+    integrate1D I "Gauss-Kronrod" p f a b = .ok (I .gaussKronrod p f a b) := by
+  have e : effParam .gaussKronrod p = p := by simp [effParam, hp]
+  refine ⟨e, by simp [effParam, hp], ?_⟩
+  rw [integrate1D_known I "Gauss-Kronrod" .gaussKronrod (by decide) p f a b, int1_ordered I .gaussKronrod p f a b hab, e]
+
+/-- accuracy at the requested depth: if the rule is within `tol` of `J` at every depth `≥ D` (it converges when the
+    depth is increased), the named method with an explicit depth `p ≥ D` is within `tol` — conditional on the
+    external rule, like `nested_accuracy_2D`. -/
+theorem gk_accuracy_at_requested_depth (I : Integ) (J tol : Rat) (D : Int) (hD : 0 < D) (f : Rat → Rat) (a b : Rat)
+    (hab : a < b) (hconv : ∀ d : Int, D ≤ d → |I .gaussKronrod d f a b - J| ≤ tol) (p : Int) (hp : D ≤ p) :
+    ∃ v, integrate1D I "Gauss-Kronrod" p f a b = .ok v ∧ |v - J| ≤ tol := by
+  have hp0 : p ≠ 0 := by omega
+  exact ⟨_, (gk_depth_honoured I p hp0 f a b hab).2.2, hconv p hp⟩
+
+example : effParam .gaussKronrod 20 = 20 := by decide
+
 /-! ## helpers of §1.1 -/
 
 theorem checkLimits_spec (a b : Rat) :
